@@ -30,9 +30,11 @@ CFG = {'streams': [{'name': 'C20',
                             'AST in stanza order / preorder: 66 format!("{}", statement) differs from display_stmt of the dumped statement (or the '
                             'number of statements differs from file_stmts); 67 the Display of a scan arm / attribute shorthand differs from '
                             'display_scan_arm / display_shorthand; 68 the variable text recorded in an SNode differs from display_variable; 69 two '
-                            'statements of the parsed file share a location (locs_unique false); 70 a hand-written program of the stream does not '
-                            'parse',
-              'model_only_codes': [66, 67, 68, 69, 70]}],
+                            'statements of the parsed file share a location (locs_unique false); 71 an identifier printed in a statement header of a '
+                            'parsed file contains a character below U+0020 (hypothesis of display_stmt_single_line_partial); 72 the REAL text of a '
+                            'statement contains a character below U+0020 (judged on the real text alone: the statement text is one line); 70 a '
+                            'hand-written program of the stream does not parse',
+              'model_only_codes': [66, 67, 68, 69, 70, 71]}],
  'rule': 'C20r: the failing runs of C20 (30% re-laid out: tabs, statements behind non-ASCII literals), rendered with paths containing spaces, '
          'non-ASCII and colons, and with the real DSL/source text (70%), a truncated one (rows missing), a CRLF copy or an unrelated text; '
          'non-trivial = two-statement context, a Context::Other entry, a missing row or a non-ASCII path. C20: generated programs with exactly one '
